@@ -112,6 +112,25 @@ def giza_case_inputs(pairs):
     return align, b" ".join(src) + b"\n", b" ".join(tgt) + b"\n"
 
 
+def load_replay(c):
+    if not c.replay:
+        return None
+    body = json.load(open(c.replay))
+    return body.get("replay") if isinstance(body.get("replay"), dict) else None
+
+
+def meta_of_line(l):
+    t = l.split()
+    b = lambda h: b"" if h == "-" else bytes.fromhex(h)
+    if t[0] in ("H", "N"):
+        return (t[0], int(t[1]), b(t[2]), None)
+    if t[0] == "M":
+        return ("M", int(t[1]), b(t[3])[:int(t[2])], None)
+    if t[0] == "F":
+        return ("F", int(t[1]), [b(x) for x in t[2:]], None)
+    return ("S", SHARD_SEED, [b(x) for x in t[2:]], int(t[1]))
+
+
 def main(argv):
     c = Check("C14", argv)
     tools = ["hx_murmur", "mmhsum", "order_independent_hash", "shard", "train_case", "apply_case"]
@@ -135,6 +154,16 @@ def main(argv):
     rng = c.rng
 
     lines, meta = gen_cases(c)
+    rp = load_replay(c)
+    if rp is not None:       # --replay: the recorded case is evaluated first, then the normal run
+        case = rp.get("case")
+        if case is None and rp.get("input_hex") is not None and "seed" in rp:
+            case = "H %d %s" % (rp["seed"], rp["input_hex"] or "-")
+        if case is None and rp.get("op") == "grid" and rp.get("input_hex") is not None:
+            case = "H 0 %s" % (rp["input_hex"] or "-")
+        if case:
+            lines.insert(0, case)
+            meta.insert(0, meta_of_line(case))
     for l, m in zip(lines, meta):
         op, seed, data, n = m
         if op in ("H", "N", "M"):
